@@ -510,6 +510,9 @@ func runBeginEnd(r *core.Run) {
 						if st, ok := in.(*ssa.Store); ok && m.errField != "" && strings.HasSuffix(canon(st.Addr), "."+m.errField) {
 							return
 						}
+						if c, ok := in.(*ssa.Call); ok && m.errField != "" && recordsError(c.Call.StaticCallee(), m.errField, 0) {
+							return // a helper that records the error (p.fail(msg, offset))
+						}
 						if _, ok := in.(*ssa.Return); ok {
 							errSet = false
 							return
@@ -823,4 +826,41 @@ func stackJSTemplate(r *core.Run) {
 		r.Check(!twice, fnLabel(fn)+" pops the template level stack at most once", fn.Pos(), "", "a path pops the template level stack twice")
 	}
 	r.Floor("js template level pops", npop, 1)
+}
+
+// recordsError: every path through fn stores the parser's error field (directly or through another such helper).
+func recordsError(fn *ssa.Function, errField string, depth int) bool {
+	if fn == nil || len(fn.Blocks) == 0 || depth > 2 || fnPkg(fn) == nil || !core.InModule(fnPkg(fn)) {
+		return false
+	}
+	// the store (or recording call) must be in a block that dominates every return
+	var marks []*ssa.BasicBlock
+	for _, b := range fn.Blocks {
+		for _, in := range b.Instrs {
+			if st, ok := in.(*ssa.Store); ok && strings.HasSuffix(canon(st.Addr), "."+errField) {
+				marks = append(marks, b)
+			}
+			if c, ok := in.(*ssa.Call); ok && recordsError(c.Call.StaticCallee(), errField, depth+1) {
+				marks = append(marks, b)
+			}
+		}
+	}
+	if len(marks) == 0 {
+		return false
+	}
+	for _, b := range fn.Blocks {
+		if _, ok := lastInstr(b).(*ssa.Return); !ok {
+			continue
+		}
+		dom := false
+		for _, m := range marks {
+			if m == b || m.Dominates(b) {
+				dom = true
+			}
+		}
+		if !dom {
+			return false
+		}
+	}
+	return true
 }
